@@ -136,6 +136,9 @@ StrLt(a, b) == IF b = <<>> THEN FALSE
                ELSE StrLt(Tail(a), Tail(b))
 IsPrefixOf(p, s) == Len(p) <= Len(s) /\ SubSeq(s, 1, Len(p)) = p
 Contains(s, p) == \E i \in 0..(Len(s) - Len(p)) : SubSeq(s, i + 1, i + Len(p)) = p
+\* a pattern of plain characters and dots (a dot stands for any ONE character; the subjects here hold no line breaks)
+DotPattern(p) == \A i \in 1..Len(p) : p[i] \in OrdSet \cup {"."}
+MatchesDots(s, p) == \E i \in 0..(Len(s) - Len(p)) : \A j \in 1..Len(p) : p[j] = "." \/ s[i + j] = p[j]
 
 \* characters that are one byte long (len() of a Go string counts bytes)
 OneByte(c) == c \notin {"EACUTE", "CJK", "COMB", "MB"}
